@@ -1,6 +1,7 @@
 import Katib.Base.Parse
 import Katib.Model.Sim
 import Katib.Drv.Status
+import Katib.Oracle.Sim
 namespace Katib.Drv
 open Katib Katib.Exp Katib.Ctl
 
@@ -102,5 +103,137 @@ def handleSim (s : Sim) (toks : List String) : Sim × String :=
   | some (.op o) =>
     let (s', out) := step s o
     (s', out ++ " | " ++ dumpWorld s'.cur)
+
+end Katib.Drv
+
+namespace Katib.Drv
+open Katib Katib.Exp Katib.Ctl
+
+/-! ### parsing an observed store dump back into a `World` (rv unknown) -/
+
+def splitOnTok (sep : String) (toks : List String) : List (List String) :=
+  let (acc, cur) := toks.foldl (fun (p : List (List String) × List String) t =>
+    if t == sep then (p.1 ++ [p.2], []) else (p.1, p.2 ++ [t])) ([], [])
+  acc ++ [cur]
+
+def parseConds {τ : Type} (ofName : String → Option τ) (s : String) : Option (List (Cond τ)) :=
+  if s == "-" then some [] else
+  (s.splitOn ",").mapM (fun c => match c.splitOn ":" with
+    | [ty, st, r] => (ofName ty).map (fun t => { ty := t, st := st == "1", reason := unhex r })
+    | _ => none)
+
+def ctOf (s : String) : Option CT := P.run pCT [s]
+def tctOf : String → Option TCT
+  | "Created" => some .created | "Running" => some .running | "Succeeded" => some .succeeded | "Killed" => some .killed
+  | "Failed" => some .failed | "MetricsUnavailable" => some .metricsUnavailable | "EarlyStopped" => some .earlyStopped | _ => none
+def sctOf : String → Option SCT
+  | "Created" => some .created | "DeploymentReady" => some .deploymentReady | "Running" => some .running
+  | "Succeeded" => some .succeeded | "Failed" => some .failed | _ => none
+
+def dashList (s : String) : List String := if s == "-" then [] else s.splitOn ","
+
+def defaultCfg : ExpCfg := { goal := none, objType := .maximize, resume := .longRunning, es := false, retain := false, push := false, labels := false }
+
+def parseItem (cfgs : List ExpInit) (w : World) (it : List String) : Option World :=
+  let cfgFor (k : Key2) : ExpCfg := match cfgs.find? (fun c => c.key = k) with | some c => c.cfg | none => defaultCfg
+  match it with
+  | ["E", ns, name, del, fin, par, max, mf, conds, compl, cnts, opt] => do
+    let cs ← parseConds ctOf conds
+    let nums ← (cnts.splitOn "/").mapM (·.toNat?)
+    let key : Key2 := { ns, name }
+    let parI ← par.toInt?
+    let st : ExpSt :=
+      { conds := cs, completion := compl.toNat?, trials := nums.headD 0, counts := nums.drop 1,
+        opt := if opt == "-" then none else some opt }
+    let e : ExpO :=
+      { key, rv := 0, deleted := del == "1", fin := fin == "1", par := parI, maxT := optInt max, maxF := optInt mf,
+        cfg := cfgFor key, st := st }
+    pure { w with exps := w.exps ++ [e] }
+  | ["S", ns, name, req, count, names, conds] => do
+    let cs ← parseConds sctOf conds
+    let key : Key2 := { ns, name }
+    let c := cfgFor key
+    let reqI ← req.toInt?
+    let cntI ← count.toInt?
+    let st : SugSt := { conds := cs, names := dashList names, count := cntI }
+    let so : SugO := { key, rv := 0, requests := reqI, resume := c.resume, es := c.es, st := st }
+    pure { w with sugs := w.sugs ++ [so] }
+  | ["T", ns, name, exp, del, fin, conds, compl, obs] => do
+    let cs ← parseConds tctOf conds
+    let c := cfgFor { ns, name := exp }
+    let ob : Option (List Metrics.Metric) ←
+      if obs == "-" then pure none
+      else if obs == "obs=" then pure (some [])
+      else do
+        let ms ← ((obs.drop 4).toString.splitOn ",").mapM (fun m => match m.splitOn ":" with
+          | [a, b, c, d] => some ({ name := unhex a, min := unhex b, max := unhex c, latest := unhex d } : Metrics.Metric)
+          | _ => none)
+        pure (some ms)
+    let st : TrialSt := { conds := cs, completion := compl.toNat?, obs := ob }
+    let t : TrialO :=
+      { key := { ns, name }, exp, rv := 0, deleted := del == "1", fin := fin == "1",
+        retain := c.retain, push := c.push, objType := c.objType, st := st }
+    pure { w with trials := w.trials ++ [t] }
+  | ["J", ns, name, st] =>
+    let state : JobState := match st with | "s" => .succeeded | "f" => .failed | "b" => .both | _ => .running
+    some { w with jobs := w.jobs ++ [{ key := { ns, name }, state }] }
+  | ["D", ns, name, r] => some { w with deploys := w.deploys ++ [{ key := { ns, name }, ready := r == "1" }] }
+  | ["V", ns, name] => some { w with svcs := w.svcs ++ [{ ns, name }] }
+  | ["P", ns, name] => some { w with pvcs := w.pvcs ++ [{ ns, name }] }
+  | ["A", ns, name] => some { w with sas := w.sas ++ [{ ns, name }] }
+  | ["O", ns, name] => some { w with roles := w.roles ++ [{ ns, name }] }
+  | ["B", ns, name] => some { w with rbs := w.rbs ++ [{ ns, name }] }
+  | ["M", t, l] => some { w with db := w.db ++ [(t, (dashList l).map (fun x => { metric := objMetric, text := unhex x, key := none, ts := none }))] }
+  | ["X", n] => n.toNat?.map (fun k => { w with algoN := k })
+  | [] => some w
+  | _ => none
+
+def parseDump (cfgs : List ExpInit) (toks : List String) : Option World :=
+  (splitOnTok ";" toks).foldlM (parseItem cfgs) {}
+
+def opKindOf (cmd : SimCmd) (histLast : Nat) : OpKind :=
+  match cmd with
+  | .init _ => .init
+  | .op (.recExp k _ _ _ _) => .recExp k
+  | .op (.recSug k vS vE vT _ _ _) => .recSug k (vS ≥ histLast && vE ≥ histLast && vT ≥ histLast)
+  | .op (.recTrial k _ _) => .recTrial k
+  | .op (.editMax k _) => .editMax k
+  | _ => .env
+
+structure OracleSt where
+  o : OSt := {}
+  nops : Nat := 0      -- number of ops since init (= index of the newest snapshot)
+
+/-- `ORACLE <prop> SIM <op> => <observed outcome>` -/
+def handleSimOracle (st : OracleSt) (prop : String) (opToks out : List String) : OracleSt × String :=
+  let (head, dump) := (out.takeWhile (· ≠ "|"), (out.dropWhile (· ≠ "|")).drop 1)
+  let logStr := ((head.find? (·.startsWith "w=")).map (fun t => (t.drop 2).toString)).getD ""
+  let log := if logStr == "" then [] else logStr.splitOn ","
+  match P.run pSimCmd opToks with
+  | none => (st, "bad-op")
+  | some cmd =>
+    let cfgs := match cmd with | .init es => es | _ => st.o.cfgs
+    match parseDump cfgs dump with
+    | none => (st, "fail unparsable-store-dump")
+    | some cur =>
+      match cmd with
+      | .init es => ({ o := { cfgs := es, prev := cur }, nops := 0 }, "pass")
+      | _ =>
+        let kind : OpKind := match opToks with
+          | "quiesce-begin" :: ns :: name :: _ => .quiesceBegin { ns, name }
+          | "quiesce-end" :: ns :: name :: _ => .quiesceEnd { ns, name }
+          | _ => opKindOf cmd st.nops
+        let o := st.o
+        let v := match prop with
+          | "C01" => oracleC01 o kind log cur
+          | "C03" => oracleC03seq o kind log cur
+          | "C04" => oracleC04 o kind log cur
+          | "C06" => oracleC06 o kind log cur
+          | "C07" => oracleC07 o kind log cur
+          | "C08" => oracleC08 o kind log cur
+          | "C09" => oracleC09 o kind log cur
+          | "C16" => oracleC16 o kind log cur
+          | _ => "bad-op"
+        ({ o := o.advance kind log cur, nops := st.nops + 1 }, v)
 
 end Katib.Drv
